@@ -300,7 +300,8 @@ class ASTTypeBuilder:
         return InputObjectType(
             name=type_def.name.value,
             description=_desc(type_def),
-            fields=[
+            # has to be lazy to support cyclic definition
+            fields=lambda: [
                 self._build_input_field(field_node)
                 for field_node in type_def.fields
             ],
@@ -484,7 +485,8 @@ class ASTTypeBuilder:
         fields = [
             InputField(
                 f.name,
-                self.extend_type(f.type),
+                # has to be lazy to support cyclic definition
+                ft.partial(self.extend_type, f.type),
                 default_value=f._default_value,
                 description=f.description,
                 node=f.node,
